@@ -436,8 +436,16 @@ class Array(AbstractValueWithQuantityObject, Generic[ValuesType]):
                 q, v = operation_func(q1, q2, v0, v1)
                 result.append(v)
             if q is None:
-                # No values to iterate on: the resulting quantity must still be obtained.
-                q, _ = operation_func(q1, q2, 1.0, 1.0)
+                # No values to iterate on: the resulting quantity must still be obtained, with a
+                # probe value. A divisor may be zero once it is matched to the other operand's
+                # unit (1 atm is 0 bar(g)): a conversion is one to one, so the next probe is not.
+                for probe in (1.0, 2.0):
+                    try:
+                        q, _ = operation_func(q1, q2, 1.0, probe)
+                        break
+                    except ZeroDivisionError:
+                        if probe == 2.0:
+                            raise
 
             if values_iteration.IsTuple():
                 result = tuple(result)  # type:ignore[assignment]
